@@ -7,6 +7,8 @@
 //! timeout + slack.
 //!
 //! case: (bl API OP CTX RX CAP PREFILL TIMEOUT_MS)
+//!   CTX also: mtnd / mtndb (worker of / inside block_on of a multi-thread runtime built WITHOUT time and io
+//!   drivers), ctnd (current-thread runtime without drivers).
 //!   API ::= sync | tokio | async   OP ::= flush | send   CTX ::= plain | mt | ct   RX ::= live | stalled | gone | hangup
 //!   TIMEOUT_MS may also be `max` (Duration::MAX) or `maxsecs` (u64::MAX seconds). RX = late: the receiver is started
 //!   30 ms after the call, so the call has to wait and then succeeds because the receiver drains the queue.
@@ -108,6 +110,12 @@ enum Ctx {
     Plain,
     Mt,
     Ct,
+    /// worker of a multi-thread runtime built WITHOUT time / io drivers (`Builder::new_multi_thread().build()`)
+    MtNoDrivers,
+    /// inside `block_on` of such a runtime (the thread is in the runtime context but is not a worker)
+    MtNoDriversBlockOn,
+    /// inside a current-thread runtime built without drivers
+    CtNoDrivers,
 }
 #[derive(Clone, Copy, PartialEq, Debug)]
 enum Rx {
@@ -174,6 +182,9 @@ fn parse(line: &str) -> Option<Case> {
             "plain" => Ctx::Plain,
             "mt" => Ctx::Mt,
             "ct" => Ctx::Ct,
+            "mtnd" => Ctx::MtNoDrivers,
+            "mtndb" => Ctx::MtNoDriversBlockOn,
+            "ctnd" => Ctx::CtNoDrivers,
             _ => return None,
         },
         rx: match a[3].as_atom()? {
@@ -310,6 +321,25 @@ fn run_blocking(line: &str) -> String {
             }
             Ctx::Ct => {
                 let rt = tokio::runtime::Builder::new_current_thread().enable_all().build().unwrap();
+                let r = hcommon::catch(|| rt.block_on(async move { call(api, op, &sender, timeout) }));
+                r.unwrap_or(Out::Panic)
+            }
+            Ctx::MtNoDrivers => {
+                let rt = tokio::runtime::Builder::new_multi_thread().worker_threads(2).build().unwrap();
+                let r = rt.block_on(async move {
+                    tokio::spawn(async move { call(api, op, &sender, timeout) }).await
+                });
+                rt.shutdown_background();
+                r.unwrap_or(Out::Panic)
+            }
+            Ctx::MtNoDriversBlockOn => {
+                let rt = tokio::runtime::Builder::new_multi_thread().worker_threads(2).build().unwrap();
+                let r = hcommon::catch(|| rt.block_on(async move { call(api, op, &sender, timeout) }));
+                rt.shutdown_background();
+                r.unwrap_or(Out::Panic)
+            }
+            Ctx::CtNoDrivers => {
+                let rt = tokio::runtime::Builder::new_current_thread().build().unwrap();
                 let r = hcommon::catch(|| rt.block_on(async move { call(api, op, &sender, timeout) }));
                 r.unwrap_or(Out::Panic)
             }
@@ -502,6 +532,20 @@ fn gen_blocking(rng: &mut Rng, tier: Tier, n: usize, ops: &[&str]) -> Vec<String
                 }
                 for (cap, prefill) in [(1usize, 1usize), (2, 2)] {
                     for t in ["max", "maxsecs", "0", "3000"] {
+                        all.push(format!("(bl {} {} {} late {} {} {})", api, op, ctx, cap, prefill, t));
+                    }
+                }
+            }
+        }
+    }
+    // runtimes built without time / io drivers: the blocking entry points must not depend on them. Only calls that
+    // genuinely have to wait (stalled: until the timeout; late: until the receiver drains)
+    for api in ["sync", "tokio"] {
+        for op in ops.iter().copied() {
+            for ctx in ["mtnd", "mtndb", "ctnd"] {
+                for (cap, prefill) in [(1usize, 1usize), (2, 2)] {
+                    all.push(format!("(bl {} {} {} stalled {} {} 30)", api, op, ctx, cap, prefill));
+                    for t in ["3000", "max"] {
                         all.push(format!("(bl {} {} {} late {} {} {})", api, op, ctx, cap, prefill, t));
                     }
                 }
